@@ -162,6 +162,16 @@ fn check_names(e: &E, cols: &[String]) -> Result<(), RefErr> {
 
 /// Reference execution; also builds the library query alongside so that the
 /// late-bound names are identical.
+/// A real column name with the case of its last letter flipped: names are
+/// case-sensitive, so this is an unknown name one keystroke from a known one.
+fn miscase(name: &str) -> String {
+    let mut cs: Vec<char> = name.chars().collect();
+    if let Some(i) = cs.iter().rposition(|c| c.is_ascii_alphabetic()) {
+        cs[i] = if cs[i].is_ascii_lowercase() { cs[i].to_ascii_uppercase() } else { cs[i].to_ascii_lowercase() };
+    }
+    cs.into_iter().collect()
+}
+
 fn exec(q: &Q, db: &[Vec<Vec<V>>; 3], stats: &mut (u32, u32, bool)) -> (Result<Rel, RefErr>, Select) {
     // 1. source
     let (src, mut sel): (Result<Rel, RefErr>, Select) = match &q.src {
@@ -189,6 +199,10 @@ fn exec(q: &Q, db: &[Vec<Vec<V>>; 3], stats: &mut (u32, u32, bool)) -> (Result<R
                     let mut on_e = resolve_cond(on, &lc, &rc);
                     if q.inject == 3 {
                         on_e = E::bin(Bin::And, on_e, E::bin(Bin::Eq, E::Col("Nope.col".into()), E::Lit(V::Int(1))));
+                    }
+                    if q.inject == 7 {
+                        let near = miscase(lc.first().or(rc.last()).map(|s| s.as_str()).unwrap_or("k"));
+                        on_e = E::bin(Bin::And, on_e, E::bin(Bin::Eq, E::Col(near), E::Lit(V::Int(1))));
                     }
                     let sel = if *left { ls.left_join(rs, build(&on_e)) } else { ls.inner_join(rs, build(&on_e)) };
                     let mut nullable = a.nullable.clone();
@@ -245,9 +259,13 @@ fn exec(q: &Q, db: &[Vec<Vec<V>>; 3], stats: &mut (u32, u32, bool)) -> (Result<R
     if q.inject == 1 {
         proj_names.push("NoSuchColumn".to_string());
     }
+    if q.inject == 5 {
+        proj_names.push(miscase(&rel.cols[0]));
+    }
     let mut cond = q.cond.as_ref().map(|c| resolve_cond(c, &rel.cols, &rel.cols));
-    if q.inject == 2 {
-        let bad = E::bin(Bin::Eq, E::Col("Missing".into()), E::Lit(V::Int(0)));
+    if q.inject == 2 || q.inject == 6 {
+        let name = if q.inject == 2 { "Missing".to_string() } else { miscase(rel.cols.last().map(|s| s.as_str()).unwrap_or("k")) };
+        let bad = E::bin(Bin::Eq, E::Col(name), E::Lit(V::Int(0)));
         cond = Some(match cond {
             Some(c) => E::bin(Bin::Or, c, bad),
             None => bad,
@@ -384,11 +402,11 @@ fn cond_seed() -> impl Strategy<Value = CondSeed> {
 }
 
 fn q_strategy(depth: u32) -> impl Strategy<Value = Q> {
-    let inject = prop_oneof![60 => Just(0u8), 1 => Just(1u8), 1 => Just(2u8), 1 => Just(3u8), 1 => Just(4u8)];
+    let inject = prop_oneof![90 => Just(0u8), 1 => Just(1u8), 1 => Just(2u8), 1 => Just(3u8), 1 => Just(4u8), 1 => Just(5u8), 1 => Just(6u8), 1 => Just(7u8)];
     let leaf = (0u8..3, prop::collection::vec(any::<u16>(), 0..3), prop::option::weighted(0.4, cond_seed()), inject.clone())
         .prop_map(|(t, proj, cond, inject)| Q { src: Src::Table(t), proj: if proj.len() == 2 { vec![] } else { proj }, cond, inject });
     leaf.prop_recursive(depth, 10, 2, move |inner| {
-        (any::<bool>(), inner.clone(), inner, cond_seed(), prop::collection::vec(any::<u16>(), 0..3), prop::option::weighted(0.3, cond_seed()), prop_oneof![40 => Just(0u8), 1 => Just(1u8), 1 => Just(2u8), 3 => Just(3u8)])
+        (any::<bool>(), inner.clone(), inner, cond_seed(), prop::collection::vec(any::<u16>(), 0..3), prop::option::weighted(0.3, cond_seed()), prop_oneof![60 => Just(0u8), 1 => Just(1u8), 1 => Just(2u8), 3 => Just(3u8), 1 => Just(5u8), 1 => Just(6u8), 3 => Just(7u8)])
             .prop_map(|(left, l, r, on, proj, cond, inject)| Q { src: Src::Join { left, l: Box::new(l), r: Box::new(r), on }, proj: if proj.len() == 2 { vec![] } else { proj }, cond, inject })
     })
 }
@@ -401,7 +419,7 @@ fn case_strategy(depth: u32) -> impl Strategy<Value = Case> {
 pub fn run(ctx: &Ctx) -> Report {
     let mut rep = Report::new(
         "exploration",
-        "select trees up to depth 3 (4 in thorough) over three base tables (one with a dotted name and a dotted column name), filters, projections, inner and left joins including joins of joins, joins of filtered and of projected sub-selects and self-joins, ON conditions over both sides' columns (late-bound to the documented table.column names), unknown table / column names injected in projection, filter and ON; table contents of 0..4 rows with nulls in join columns; one case in four stores its strings under Windows-1252 (two different unrepresentable texts become the same '?' in two pool entries) and reopens before querying, the reference then works on the base tables as read back. Oracle: reference executor (naming rule, nested-loop order, null padding and nullability in left joins, filter, projection): column names, row order, values and nullability must match; unknown names must be reported as errors (also when a side is empty); no panic. Queries that refer to a duplicated column name are skipped (resolution undocumented). Non-trivial = a join with at least one matched and one unmatched pair; distinct by (query, data).",
+        "select trees up to depth 3 (4 in thorough) over three base tables (one with a dotted name and a dotted column name), filters, projections, inner and left joins including joins of joins, joins of filtered and of projected sub-selects and self-joins, ON conditions over both sides' columns (late-bound to the documented table.column names), unknown table / column names (also real names with the case of one letter flipped) injected in projection, filter and ON; table contents of 0..4 rows with nulls in join columns; one case in four stores its strings under Windows-1252 (two different unrepresentable texts become the same '?' in two pool entries) and reopens before querying, the reference then works on the base tables as read back. Oracle: reference executor (naming rule, nested-loop order, null padding and nullability in left joins, filter, projection): column names, row order, values and nullability must match; unknown names must be reported as errors (also when a side is empty); no panic. Queries that refer to a duplicated column name are skipped (resolution undocumented). Non-trivial = a join with at least one matched and one unmatched pair; distinct by (query, data).",
     );
     let mut st = Stats::new();
     let depth = ctx.tier.pick(3, 4);
